@@ -14,6 +14,7 @@ from .terms import Undecided
 MAX_PATHS = 96
 MAX_DEPTH = 10
 VISITED = set()       # (crate, body path) of every body the interpreter executed
+UNPROVED = {}         # (crate, body path) -> {description} of panic obligations left unproved on a completed path
 
 
 class Target:
@@ -500,7 +501,7 @@ class Interp:
         except Undecided:
             return
         ok = st.F.prove_ge(idx) and st.F.prove_ge(total - (idx + 1) * esz)
-        st.oblig.append({"kind": "bounds", "fn": fr.body["path"], "ok": ok, "detail": "%s %r < len %r/%r" % (what, idx, total, esz)})
+        st.oblig.append({"kind": "bounds", "fn": fr.body["path"], "crate": fr.crate.name, "ok": ok, "detail": "%s %r < len %r/%r" % (what, idx, total, esz)})
         if not ok:
             st.F.add_ge(idx)
             st.F.add_ge(total - (idx + 1) * esz)
@@ -876,7 +877,7 @@ class Interp:
             if not t["expected"]:
                 cond = neg_cond(cond)
             ok = st.F.prove_cond(cond)
-            st.oblig.append({"kind": "assert:" + t["msg_kind"], "fn": fr.body["path"], "ok": ok, "detail": T.cshow(cond) if cond[0] in ("ge", "lt", "eq", "ne") else repr(cond), "span": t["span"]})
+            st.oblig.append({"kind": "assert:" + t["msg_kind"], "fn": fr.body["path"], "crate": fr.crate.name, "ok": ok, "detail": T.cshow(cond) if cond[0] in ("ge", "lt", "eq", "ne") else repr(cond), "span": t["span"]})
             st.F.add_cond(cond)     # proved or assumed: keep it as an explicit row for the product lemmas
             return [("goto", st, t["target"])]
         if k == "switch":
@@ -1087,7 +1088,11 @@ class Interp:
             if kind == "return":
                 res.append((s2, v))
             elif kind == "panic":
-                s2.oblig.append({"kind": "panic-path", "fn": body["path"], "ok": False, "detail": "explicit panic reachable"})
+                s2.oblig.append({"kind": "panic-path", "fn": body["path"], "crate": cr.name, "ok": False, "detail": "explicit panic reachable"})
+                # the panicking path is not among the results: keep its obligations in the global log
+                for o in s2.oblig:
+                    if not o["ok"]:
+                        UNPROVED.setdefault((o.get("crate", cr.name), o["fn"]), set()).add("%s %s" % (o["kind"], o["detail"]))
             else:
                 raise Undecided("unexpected outcome %s" % kind)
         return res
